@@ -44,11 +44,7 @@ const (
 type state uint32
 
 func (s *state) Tag() bool {
-	if !s.Seen() {
-		return false
-	}
-	s.Unset(stateSeen)
-	return true
+	return s.tryUnset(stateSeen)
 }
 func (s *state) Seen() bool {
 	return atomic.LoadUint32((*uint32)(s))&stateSeen != 0
